@@ -18,6 +18,9 @@ def plan(tier):
         pl.append((PG.failing_first_ok(k, 2), 1, PT))
     for k in EXC_KINDS:
         pl.append((PG.failing_first_ok(k, 1), 0 if tier == "quick" else 1, PT))
+    for exc in ("KeyboardInterrupt", "SystemExit", "GeneratorExit", "MemoryError", "StopIteration"):
+        pl.append((PG.callback_raises_exc(exc, 1, "ok"), 0 if exc in ("MemoryError", "StopIteration") else 1, PT))
+        pl.append((PG.callback_raises_exc(exc, 1, "bad_arg"), 0, PT))
     pl += [(PG.big_and_small(2), 1, PT), (PG.big_and_small(3, 5000, 1024, 4), 1, dict(kinds=("P",))),
            (PG.late_callbacks(1), 1, PT), (PG.many_unsendable(6, 1), 1, PT), (PG.callback_raises(1), 1, PT),
            (PG.mixed_failures(["bad_arg", "raise", "ok", "huge_arg", "ok"], 1), 1, PT),
